@@ -17,7 +17,7 @@ From Coq Require Import List Arith Bool ZArith Lia.
 From PV Require Import Base.Exn Base.Values Base.Ann Model.CheckerCfg Model.Checker Model.GenericInstance
   Model.TypeVarShapeCfg Spec.Conforms Spec.TypeVarSpec Gen.CheckerTables Gen.TypeVarShape
   Proofs.CheckerGood Proofs.CheckerRefine Proofs.CheckerSpec Proofs.CheckerTop
-  Proofs.TypeVarFrame Proofs.TypeVarTC Proofs.TypeVarCall Proofs.TypeVarHistory Proofs.TypeVarSpecLink Proofs.TypeVarUnion.
+  Proofs.TypeVarFrame Proofs.TypeVarTC Proofs.TypeVarCall Proofs.TypeVarHistory Proofs.TypeVarSpecLink Proofs.TypeVarUnion Proofs.TypeVarInst.
 Import ListNotations.
 
 Definition cfg := Gen.CheckerTables.checker_cfg.
@@ -216,6 +216,64 @@ Theorem C07_instance_position_denotation : forall ctx t x v, plain_tv t = true -
 Proof. intros ctx t x v. exact (position_denotation cfg good Hmh ctx t x v). Qed.
 Print Assumptions C07_instance_position_denotation.
 
+(* ---- NESTED positions of the class's type variables (List[T], Dict[str, T], Optional[T], Tuple[T, T] ... to any
+   depth; constrained / bound class TypeVars included).  Guard nested_method: every position is in tv_vocab and
+   mentions only type parameters of the class (no method-level TypeVar: K5c). *)
+
+(* for ALL histories: the call is accepted iff it is accepted on a freshly created instance of Cls[xs] *)
+Theorem C07_instance_nested_iff : forall ctx w h1 h2 slot c xs iargs cd ids m sg args ret,
+  nth_error (w_classes w) c = Some cd -> cd_kind cd = KGeneric ids ->
+  nth_error (cd_methods cd) m = Some sg ->
+  well_formed_inst ids xs -> nested_method ids sg = true ->
+  fst (run_step cfg ctx w (snd (run_from cfg ctx w [] h1)) (SNew slot c xs iargs)) = ROk ->
+  forallb (fun s => negb (is_new_on slot s)) h2 = true ->
+  (last (run_history cfg ctx w (h1 ++ SNew slot c xs iargs :: h2 ++ [SCall slot m args ret])) RAbsent = ROk
+   <-> fst (run_call cfg ctx (refresh_of (KGeneric ids) (Some xs)) sg args ret []) = Ok tt).
+Proof. intros ctx w. exact (instance_nested_any_history cfg good Hub ctx w). Qed.
+Print Assumptions C07_instance_nested_iff.
+
+(* one position, any two stored tables: same acceptance; same outcome (exception class included) when the
+   TypeVar-free structure of the position accepts the value *)
+Theorem C07_instance_nested_position_indep : forall ctx ids xs a v tb1 tb2, well_formed_inst ids xs -> nested_ok ids a = true ->
+  (fst (amatch cfg ctx a v (refresh_of (KGeneric ids) (Some xs) tb1)) = Ok tt ->
+   fst (amatch cfg ctx a v (refresh_of (KGeneric ids) (Some xs) tb2)) = Ok tt)
+  /\ (pos_struct cfg ctx (hook0 ctx) a v ->
+      fst (amatch cfg ctx a v (refresh_of (KGeneric ids) (Some xs) tb1)) = fst (amatch cfg ctx a v (refresh_of (KGeneric ids) (Some xs) tb2))).
+Proof. intros ctx ids xs a v tb1 tb2. exact (inst_position_indep cfg good Hub ctx ids xs a v tb1 tb2). Qed.
+Print Assumptions C07_instance_nested_position_indep.
+
+(* X a plain class c: whatever an accepted position matched against T (at any depth) is an instance of c,
+   i.e. conforms to X.  (Guard "X is a plain class" = the negation of the K5d matcher.) *)
+Theorem C07_instance_nested_sound : forall ctx ids xs a v tb i c, well_formed_inst ids xs -> nested_ok ids a = true ->
+  fst (amatch cfg ctx a v (refresh_of (KGeneric ids) (Some xs) tb)) = Ok tt -> x_of ids xs i = Some (ACls c) ->
+  (forall p, In p (matched true a v) -> tv_id (mp_tv p) = i -> tv_contravariant (mp_tv p) = false) ->
+  forall p, In p (matched true a v) -> tv_id (mp_tv p) = i -> conforms ctx (ACls c) (mp_val p) = Must.
+Proof.
+  intros ctx ids xs a v tb i c Hw Hn Hacc Hx Hcov p Hp Hi. cbn [conforms].
+  now rewrite (inst_position_sound cfg good Hub ctx ids xs a v tb i c Hw Hn Hacc Hx Hcov p Hp Hi).
+Qed.
+Print Assumptions C07_instance_nested_sound.
+
+(* every matched value conforms to its X (vocabulary of C01/C02), identical classes per TypeVar, constraints / bounds
+   of T respected, structure accepted: accepted - for every stored table, hence after every history *)
+Theorem C07_instance_nested_complete : forall ctx ids xs a v tb (P : nat -> cls), well_formed_inst ids xs -> nested_ok ids a = true ->
+  pos_struct cfg ctx (hook0 ctx) a v ->
+  (forall p, In p (matched true a v) ->
+     tv_admits (mp_tv p) (mp_val p) = true /\ tv_contravariant (mp_tv p) = false /\ class_of (mp_val p) = P (tv_id (mp_tv p))
+     /\ forall x, x_of ids xs (tv_id (mp_tv p)) = Some x -> supported_in ctx x = true /\ conforms ctx x (mp_val p) = Must) ->
+  fst (amatch cfg ctx a v (refresh_of (KGeneric ids) (Some xs) tb)) = Ok tt.
+Proof.
+  intros ctx ids xs a v tb P Hw Hn Hst Hall.
+  apply (inst_position_complete cfg good Hub ctx ids xs a v tb P Hw Hn Hst).
+  intros p Hp. destruct (Hall p Hp) as [Ha [Hc [Hcl Hx]]]. repeat split; try assumption.
+  intros x Ex. destruct (Hx x Ex) as [Hs Hm]. unfold x_accepts.
+  destruct (chk_agrees cfg good ctx x Hs (mp_val p)) as [Ht _]. specialize (Ht Hm).
+  destruct x; try discriminate Hs;
+    try (cbn [bind_of]; unfold is_inst0; rewrite (is_inst_refines cfg good ctx no_hook _ Hs (mp_val p) []); cbn [fst]; now rewrite Ht).
+  cbn [bind_of]. exact Ht.
+Qed.
+Print Assumptions C07_instance_nested_complete.
+
 (* plain functions: the verdict after any history is the verdict of the call alone *)
 Theorem C07_no_leak_plain : forall ctx w h f args ret,
   last (run_history cfg ctx w (h ++ [SFun f args ret])) RAbsent = last (run_history cfg ctx w [SFun f args ret]) RAbsent.
@@ -297,6 +355,26 @@ Proof.
 Qed.
 Print Assumptions C07_no_leak_refuted_method_level_typevar.
 
+(* K5d.  Full statement: "every method call ... accepts a value for a T-annotated parameter iff it conforms to X",
+   nested positions included - false when X is not a plain class: on Cls[List[int]] the position a: Tuple[T, T]
+   accepts ([1], ['x']); only the first matched value is checked against X, then the binding is its runtime class.
+   Partial forms: C07_instance_nested_sound (X a plain class), C07_instance_nested_complete, C07_instance_nested_iff. *)
+Definition tv0 : tvar := {| tv_id := 0; tv_constraints := []; tv_bound := None; tv_contravariant := false |}.
+Definition pair_sig : msig := {| ms_params := [AGeneric SpTyping TTuple [ATypeVar tv0; ATypeVar tv0]]; ms_ret := ANone |}.
+Definition w_k5d : world :=
+  {| w_classes := [{| cd_kind := KGeneric [0]; cd_tparams := [0]; cd_init := None; cd_methods := [pair_sig] |}]; w_funs := [] |}.
+Theorem C07_instance_nested_refuted_annotation_argument :
+  exists w h x v,
+    run_history cfg no_ctx w h = [ROk; ROk] /\
+    h = [SNew 0 0 [x] []; SCall 0 0 [v] VNone] /\
+    x = AGeneric SpTyping TList [ACls CInt] /\ v = VTuple [VList [VInt 1]; VList [VStr [120]]] /\
+    call_spec no_ctx (xenv_of [0] [x]) (sig_positions pair_sig) [v; VNone] = MustNot.
+Proof.
+  exists w_k5d. eexists. exists (AGeneric SpTyping TList [ACls CInt]), (VTuple [VList [VInt 1]; VList [VStr [120]]]).
+  repeat split; vm_compute; reflexivity.
+Qed.
+Print Assumptions C07_instance_nested_refuted_annotation_argument.
+
 (* partial form of "no leak" on generic instances (guard inst_method: every TypeVar of the method is a type
    parameter of the class - the negation of the K5c matcher): whatever happened between the creation and
    the call, and whatever happened before the creation, the outcome is the same *)
@@ -342,6 +420,9 @@ Example ex_optional_nested :
   /\ exists e, call no_ctx {| ms_params := [AUnion UTyping [AGeneric SpTyping TList [ATypeVar tvS]; ACls CNoneType]; ATypeVar tvS]; ms_ret := ANone |}
                      [VList [VInt 1]; VStr [120]] VNone = Raise e /\ derives e PTypeVarMismatchC = true.
 Proof. split; [vm_compute; reflexivity|vm_compute; eauto]. Qed.
+Example ex_nested_ok : nested_method [0; 1] {| ms_params := [AGeneric SpTyping TList [ATypeVar tv0]; AUnion UTyping [ATypeVar tv0; ACls CNoneType]];
+                                               ms_ret := AGeneric SpBuiltin TDict [ACls CStr; ATypeVar tv0] |} = true.
+Proof. reflexivity. Qed.
 Example ex_instance : well_formed_inst [0; 1] [ACls CInt; AGeneric SpTyping TList [ACls CStr]]
                       /\ inst_method [0; 1] {| ms_params := [ATypeVar {| tv_id := 1; tv_constraints := []; tv_bound := None; tv_contravariant := false |}; ACls CInt];
                                                ms_ret := ATypeVar {| tv_id := 0; tv_constraints := []; tv_bound := None; tv_contravariant := false |} |} = true.
